@@ -18,6 +18,9 @@ for **every** expression, context, document and amount of fuel.
 | `member_maps` | `coll.name` = `coll.select($.name)` |
 | `fuel_mono` | more fuel never changes a definite outcome |
 | `empty_frame_invisible` | a frame that binds nothing cannot be observed (why the model may elide the call frames of pure builtins) |
+| `let_names_verbatim`, `kwarg_names_verbatim`, `def_names_verbatim` | names are data: a binding is visible exactly under its own normal form |
+| `def_call_own_args`, `def_call_pure`, `def_calls_independent`, `def_then_call` | a call of a `def`-ined function is the body on the argument VALUES of that call: equal values give equal results, and nothing of an earlier call (its arguments, its result) occurs in a later one |
+| `def_identity_faithful`, `def_identity_injective` | arguments are handed over as they are: `1`, `true`, `1.0` stay three values |
 
 ## For the properties that build on this (C09 context clause, C18)
 
